@@ -1,101 +1,12 @@
 ------------------------------- MODULE Stream -------------------------------
 (***************************************************************************)
-(* The WHATWG event-stream parsing / interpretation algorithm over token   *)
-(* strings (Bytes.tla), in three modes:                                    *)
-(*   "whatwg"  the standard unadapted (dispatch only with data; a pending  *)
-(*             event is discarded at the end of the stream)                *)
-(*   "read"    go-sse's sse.Read: dispatch when any of data/event/id was   *)
-(*             seen; Type stays empty; a pending event whose last line was *)
-(*             terminated is dispatched at a clean end of stream, an       *)
-(*             unterminated last line discards it (unexpected_eof)         *)
-(*   "conn"    a Connection: as "read", and retry also makes an event      *)
-(*                                                                         *)
-(* The interpretation is a deterministic step function on a record         *)
-(* (StripBOM, Line, End); the state machine below applies it one step at a *)
-(* time (model checking), Run applies it to completion (behaviour export   *)
-(* and use by other modules).  It is independent of how bytes arrive by    *)
-(* construction, which is what makes it the oracle for the code's handling *)
-(* of read boundaries.                                                     *)
-(*                                                                         *)
-(* Properties served: C01 C11 C02 C10 C12 C05 (as the reference parser).   *)
+(* The event-stream interpretation of StreamCore.tla as a state machine:   *)
+(* generation of an input over an alphabet of tokens and line templates,   *)
+(* then the interpretation one step at a time (model checking of the       *)
+(* invariants on every intermediate state) or its export (direction A).    *)
+(* Properties served: C01 (C11, C20 reuse the exports).                    *)
 (***************************************************************************)
-EXTENDS Bytes, Json
-
-IsNL(t) == t \in {"LF", "CR"}
-
-\* index of the first token satisfying P, or 0
-FirstNL(s)    == IF \E i \in 1..Len(s) : IsNL(s[i])
-                 THEN CHOOSE i \in 1..Len(s) : IsNL(s[i]) /\ \A j \in 1..(i - 1) : ~IsNL(s[j]) ELSE 0
-FirstColon(s) == IF \E i \in 1..Len(s) : s[i] = "COLON"
-                 THEN CHOOSE i \in 1..Len(s) : s[i] = "COLON" /\ \A j \in 1..(i - 1) : s[j] # "COLON" ELSE 0
-
-Drop(s, n) == SubSeq(s, n + 1, Len(s))
-TrimSP(s)  == IF s # <<>> /\ s[1] = "SP" THEN Drop(s, 1) ELSE s
-HasNUL(s)  == \E i \in 1..Len(s) : s[i] = "NUL"
-AllDigits(s) == s # <<>> /\ \A i \in 1..Len(s) : s[i] \in DigitTokens
-
-InitSt(input, lastId0) ==
-    [rest |-> input, started |-> FALSE, data |-> <<>>, hasData |-> FALSE, type |-> <<>>, lastId |-> lastId0,
-     dirty |-> FALSE, out |-> <<>>, status |-> "running", lastTerm |-> TRUE, retries |-> <<>>, nblank |-> 0]
-
-\* hasData is a ghost (not observable through go-sse's Event): whether the event had a data field
-Event(st) == [id |-> st.lastId, type |-> st.type, hasData |-> st.hasData,
-              data |-> IF st.data = <<>> THEN <<>> ELSE SubSeq(st.data, 1, Len(st.data) - 1)]
-
-ShouldDispatch(st, mode) == IF mode = "whatwg" THEN st.hasData ELSE st.dirty
-
-\* the BOM is removed only as the very first token of the stream
-StripBOM(st) ==
-    [st EXCEPT !.started = TRUE,
-               !.rest = IF st.rest # <<>> /\ st.rest[1] = "BOM" THEN Drop(st.rest, 1) ELSE st.rest]
-
-\* one line: blank -> dispatch; field; comment; unknown; an unterminated tail only records that fact
-Line(st, mode) ==
-    LET n == FirstNL(st.rest) IN
-    IF n = 0 THEN [st EXCEPT !.rest = <<>>, !.lastTerm = FALSE]
-    ELSE
-      LET line == SubSeq(st.rest, 1, n - 1)
-          skip == IF st.rest[n] = "CR" /\ n < Len(st.rest) /\ st.rest[n + 1] = "LF" THEN n + 1 ELSE n
-          c    == FirstColon(line)
-          name == IF c = 0 THEN line ELSE SubSeq(line, 1, c - 1)
-          val  == IF c = 0 THEN <<>> ELSE TrimSP(Drop(line, c))
-          s1   == [st EXCEPT !.rest = Drop(st.rest, skip), !.lastTerm = TRUE]
-      IN IF line = <<>> THEN
-            [s1 EXCEPT !.out = IF ShouldDispatch(st, mode) THEN Append(st.out, Event(st)) ELSE st.out,
-                       !.data = <<>>, !.hasData = FALSE, !.type = <<>>, !.dirty = FALSE, !.nblank = st.nblank + 1]
-         ELSE IF name = <<"data">> THEN
-            [s1 EXCEPT !.data = st.data \o val \o <<"LF">>, !.hasData = TRUE, !.dirty = TRUE]
-         ELSE IF name = <<"event">> THEN
-            [s1 EXCEPT !.type = val, !.dirty = TRUE]
-         ELSE IF name = <<"id">> THEN
-            IF HasNUL(val) THEN s1 ELSE [s1 EXCEPT !.lastId = val, !.dirty = TRUE]
-         ELSE IF name = <<"retry">> THEN
-            IF AllDigits(val) /\ mode # "read"
-            THEN [s1 EXCEPT !.retries = Append(st.retries, val), !.dirty = (st.dirty \/ mode = "conn")]
-            ELSE s1
-         ELSE s1        \* comment (empty name) or unknown / look-alike name
-
-\* end of input: clean (EOF), or a read error / cancellation
-End(st, endKind, mode) ==
-    IF endKind = "clean" THEN
-        IF mode = "whatwg" THEN [st EXCEPT !.status = "eof"]
-        ELSE IF st.lastTerm
-             THEN [st EXCEPT !.out = IF st.dirty THEN Append(st.out, Event(st)) ELSE st.out, !.status = "eof"]
-             ELSE [st EXCEPT !.status = "unexpected_eof"]
-    ELSE [st EXCEPT !.status = IF endKind = "cancel" THEN "cancelled" ELSE "read_error"]
-
-Step(st, endKind, mode) ==
-    IF ~st.started THEN StripBOM(st)
-    ELSE IF st.rest = <<>> THEN End(st, endKind, mode)
-    ELSE Line(st, mode)
-
-RECURSIVE Run(_, _, _)
-Run(st, endKind, mode) == IF st.status # "running" THEN st ELSE Run(Step(st, endKind, mode), endKind, mode)
-
-Interpret(input, endKind, mode, lastId0) == Run(InitSt(input, lastId0), endKind, mode)
-
-\* the observable result of an interpretation
-Result(st) == [out |-> st.out, status |-> st.status, retries |-> st.retries, lastId |-> st.lastId]
+EXTENDS StreamCore
 
 -----------------------------------------------------------------------------
 (* State machine: generation of an input over Alphabet (single tokens) and *)
